@@ -442,6 +442,143 @@ impl Engine for PoolEngine {
     }
 }
 
+// ------------------------------------------------------------------------------------------------
+// Free-running mode: the same actions without the baton. The interleaving is whatever the OS produces, so a case
+// is not a deterministic function of its bytes; the invariants checked are sound for every schedule.
+
+pub struct PoolStress;
+
+fn stress<const UP: bool>(hdr: &[u8], recs: &[&[u8]]) -> Out {
+    use std::sync::atomic::{AtomicUsize, Ordering};
+    let b = |i: usize| hdr.get(i).copied().unwrap_or(0);
+    let nthreads = 2 + b(1) as usize % 4;
+    let max_held = 1 + b(3) as usize % 2;
+    let rounds = 150 + (b(4) as usize % 4) * 150;
+    let ledger = Arc::new(Mutex::new(Ledger::default()));
+    let mut pool: BumpPool<PoolAlloc, BumpSettings<1, UP>> = BumpPool::new_in(PoolAlloc(ledger.clone()));
+    let mut out = Out { fails: vec![], classes: BTreeSet::new(), log: Some(format!("free-running: {nthreads} threads x {rounds} rounds, at most {max_held} guard(s) held per thread, up {UP}\n")), steps: 0, nontrivial: false, hash: 0xcbf29ce484222325 };
+    let owners: Mutex<BTreeSet<usize>> = Mutex::new(BTreeSet::new());
+    let errors: Mutex<Vec<(String, String)>> = Mutex::new(Vec::new());
+    let steps = AtomicUsize::new(0);
+    let barrier = std::sync::Barrier::new(nthreads);
+    std::thread::scope(|s| {
+        for t in 0..nthreads {
+            let (pool, owners, errors, steps, barrier) = (&pool, &owners, &errors, &steps, &barrier);
+            // the thread's own action list: the case's records, rotated by the thread index
+            let prog: Vec<u8> = recs.iter().flat_map(|r| r.iter().copied()).collect();
+            s.spawn(move || {
+                let ident = |g: &BumpPoolGuard<'_, PoolAlloc, BumpSettings<1, UP>>| -> usize { g.stats().small_to_big().next().map(|c| c.chunk_start().as_ptr() as usize).unwrap_or(0) };
+                let byte = |i: usize| if prog.is_empty() { (i * 31 + t) as u8 } else { prog[(i + t * 7) % prog.len()] };
+                let mut held: Vec<(BumpPoolGuard<'_, PoolAlloc, BumpSettings<1, UP>>, usize, usize, u64, usize)> = Vec::new();
+                barrier.wait();
+                for i in 0..rounds {
+                    steps.fetch_add(1, Ordering::Relaxed);
+                    let x = byte(i);
+                    if held.len() >= max_held || (x % 3 == 0 && !held.is_empty()) {
+                        let (g, ptr, len, seed, id) = held.remove(x as usize % held.len());
+                        if let Some(k) = check_pattern(ptr, len, seed) {
+                            errors.lock().unwrap().push(("C19/data-intact".into(), format!("thread {t}: byte {k} of its own block changed while it held the guard (arena {id:#x})")));
+                        }
+                        owners.lock().unwrap().remove(&id);
+                        drop(g);
+                        continue;
+                    }
+                    let g = match x % 6 {
+                        0 | 1 => pool.get(),
+                        2 | 3 => match pool.try_get() {
+                            Ok(g) => g,
+                            Err(_) => continue,
+                        },
+                        4 => pool.get_with_size(64 + x as usize * 8),
+                        _ => match pool.try_get_with_size(64 + x as usize * 8) {
+                            Ok(g) => g,
+                            Err(_) => continue,
+                        },
+                    };
+                    let len = 1 + x as usize % 48;
+                    let sl = g.alloc_uninit_slice::<u8>(len);
+                    let ptr = sl.as_ptr() as usize;
+                    std::mem::forget(sl);
+                    let seed = (t as u64) << 32 | i as u64;
+                    write_pattern(ptr, len, seed);
+                    let id = ident(&g);
+                    if !owners.lock().unwrap().insert(id) {
+                        errors.lock().unwrap().push(("C19/exclusive".into(), format!("thread {t} got arena {id:#x} while another guard for it is live")));
+                    }
+                    held.push((g, ptr, len, seed, id));
+                }
+                for (g, ptr, len, seed, id) in held.drain(..) {
+                    if let Some(k) = check_pattern(ptr, len, seed) {
+                        errors.lock().unwrap().push(("C19/data-intact".into(), format!("thread {t}: byte {k} of its own block changed while it held the guard (arena {id:#x})")));
+                    }
+                    owners.lock().unwrap().remove(&id);
+                    drop(g);
+                }
+            });
+        }
+    });
+    out.steps = steps.load(std::sync::atomic::Ordering::Relaxed) as u64;
+    out.hash ^= bsv_core::runner::fnv(hdr);
+    for r in recs {
+        out.hash = (out.hash ^ bsv_core::runner::fnv(r)).wrapping_mul(0x100000001b3);
+    }
+    for (id, msg) in errors.into_inner().unwrap() {
+        if !out.fails.iter().any(|f| f.oracle == id) {
+            out.fails.push(Failure { oracle: id, msg });
+        }
+    }
+    // at no time can more than nthreads * max_held guards be live, whatever the schedule
+    let created = pool.bumps().len();
+    let bound = nthreads * max_held;
+    if created > bound {
+        out.fails.push(Failure { oracle: "C19/created-le-peak".into(), msg: format!("{created} arenas were created although at most {bound} guards ({nthreads} threads x {max_held}) can have been live at the same time") });
+    }
+    if created >= 2 {
+        out.classes.insert("several_arenas");
+        out.nontrivial = true;
+    }
+    drop(pool);
+    let l = ledger.lock().unwrap();
+    if !l.live.is_empty() {
+        out.fails.push(Failure { oracle: "C19/pool-drop".into(), msg: format!("{} grant(s) outstanding after the pool was dropped", l.live.len()) });
+    }
+    for e in l.errors.clone() {
+        let id = e.split(':').next().unwrap_or("C19/ledger").to_string();
+        if !out.fails.iter().any(|f| f.oracle == id) {
+            out.fails.push(Failure { oracle: id, msg: e });
+        }
+    }
+    out
+}
+
+impl Engine for PoolStress {
+    fn name(&self) -> &'static str {
+        "F2/pool-free-running"
+    }
+    fn max_records(&self) -> usize {
+        8
+    }
+    fn rule(&self) -> String {
+        "generator: header (2..5 threads, at most 1..2 guards held per thread, 150..600 rounds, bump direction) + up to 8 records used as every thread's action bytes (getter get / try_get / get_with_size / try_get_with_size, block length, when to drop); the threads run freely after a barrier, so the interleaving is the operating system's and a case is not replayable bit for bit. oracle (sound for every schedule): arenas ever created <= threads x guards held per thread; no arena identity behind two live guards (owner set maintained after get / before drop); every thread's patterned blocks intact while it holds the guard; ledger clean after the pool is dropped. non-trivial: at least two arenas were created; distinct by hash of the case bytes".into()
+    }
+    fn required_classes(&self) -> Vec<(&'static str, f64)> {
+        vec![("several_arenas", 0.5)]
+    }
+    fn assumptions(&self) -> Vec<String> {
+        vec!["the schedule is the operating system's: a failure is real for the schedule that occurred but a replay may not reproduce it".into()]
+    }
+    fn run_case(&self, bytes: &[u8], _want_desc: bool) -> CaseResult {
+        let (hb, rest) = bytes.split_at(bytes.len().min(16));
+        let recs: Vec<&[u8]> = rest.chunks(16).collect();
+        let up = hb.first().copied().unwrap_or(0) & 1 == 0;
+        let o = if up { stress::<true>(hb, &recs) } else { stress::<false>(hb, &recs) };
+        CaseResult {
+            report: CaseReport { nontrivial: o.nontrivial, hash: o.hash, classes: o.classes.iter().copied().collect(), ops: o.steps, nops: 0, desc: o.log, counters: vec![("steps", o.steps)] },
+            failures: o.fails,
+        }
+    }
+}
+
 #[allow(unused)]
 fn _p(a: usize, b: usize) -> usize {
     pick(a, b)
